@@ -352,6 +352,8 @@ def pub_rules(exc_ret, stop=False):
         Sub(r"\b(\w+)\.stop_requested\(\)", r"stop_requested(\1)", None),
         EC_BOOL,
     ] + EC
+    # ghost local: the caller's error_code value when the predicate loop is entered (for the loop invariant only)
+    r += [Sub(r"(\bwhile\s*\()", r"int vx_ec_in = g_ec.value; \1", None)]
     if stop:
         r += [LambdaOut(None)]
     # RAII: all guard kinds lowered together, in reverse textual order of declaration
@@ -380,7 +382,7 @@ L_WAIT_UNTIL_PRED = r"wait_until\(%s,\s*%s,\s*Predicate pred,\s*error_code& ec =
 LOOP_PRED = """
 __CPROVER_assigns(PUB_GHOST)
 __CPROVER_loop_invariant(self == vx_self && self->data_ == g_blk && lock == g_user && g_user->held && !g_blk->mtx_.held && !g_il_owns && !g_self_dead && !g_may_die)
-__CPROVER_loop_invariant(g_blk->count_ >= 1 && g_blk->count_ < VX_BIG && vx_exc == 0 && !g_cb_registered && g_pred_calls >= 0 && g_pred_calls <= 2)
+__CPROVER_loop_invariant(g_blk->count_ >= 1 && g_blk->count_ < VX_BIG && vx_exc == 0 && !g_cb_registered && g_pred_calls >= 0 && g_pred_calls <= 2 && (g_ec.value == vx_ec_in || g_ec.value == pika_error_success))
 __CPROVER_loop_invariant(g_dwaits >= 0 && g_dwaits <= 2 && (g_dwaits == 0 || !g_last_timed || g_last_wake != thread_restart_state_timeout))
 """
 
@@ -425,7 +427,7 @@ L_LAMBDA = r"auto f = \[&data, &ec\]"
 LOOP_STOP = """
 __CPROVER_assigns(PUB_GHOST)
 __CPROVER_loop_invariant(self == vx_self && lock == g_user && data == g_blk && g_user->held && !g_blk->mtx_.held && !g_il_owns && !g_self_dead && !g_may_die)
-__CPROVER_loop_invariant(g_blk->count_ >= 1 && g_blk->count_ <= VX_BIG && vx_exc == 0 && g_cb_registered && !g_stop_seen && g_pred_calls >= 0 && g_pred_calls <= 2)
+__CPROVER_loop_invariant(g_blk->count_ >= 1 && g_blk->count_ <= VX_BIG && vx_exc == 0 && g_cb_registered && !g_stop_seen && g_pred_calls >= 0 && g_pred_calls <= 2 && (g_ec.value == vx_ec_in || g_ec.value == pika_error_success))
 __CPROVER_loop_invariant(g_dwaits >= 0 && g_dwaits <= 2 && (g_dwaits == 0 || !g_last_timed || g_last_wake != thread_restart_state_timeout))
 """
 CLOSURE = [Sub(r"\bdata\b", "(*clo->data)", None), Sub(r"\bec\b", "(*clo->ec)", None)]
@@ -454,7 +456,56 @@ UNITS += [
 ]
 
 META = {
-    "trusted_base": [],
-    "assumptions": [],
-    "not_decided": [],
+    "explanation":
+        "Group 1 (cv.*): the real bodies of detail::condition_variable::{wait, wait_until, notify_one, notify_all, abort_all<Mutex>, abort_all, "
+        "prepend_entries, size, empty} and of queue_entry / reset_queue_entry (constructor initialiser lists lowered to assignments, destructor) "
+        "are proved against a sequence stub of the intrusive list: a list is an id, its length a ghost scalar, and ONE symbolic entry (the victim: "
+        "list id + position + real ctx_/q_ fields) stands for any entry.  Monitor invariant WF_V (a linked entry has ctx_ set and q_ naming the "
+        "list that links it; an unlinked one has ctx_ cleared) is an obligation at every release point of the internal lock and the only thing "
+        "assumed of other agents at every re-acquisition.  Loops over the list (q_ re-targeting, drain loops, abort_all's outer loop) carry loop "
+        "contracts: all list lengths, all victim positions, all interference.  Suspension may end with an exception (interruption / abort): the "
+        "RAII exits are exercised on that path as well.  Group 2/3 (pub.*): pika::condition_variable and condition_variable_any (same text, both "
+        "lifted), RAII lowered in reverse textual order of declaration; lock-order obligations O1-O3 live in the lock stubs, the internal cv is the "
+        "contract proved by group 1; the cv object may be destroyed while the caller is blocked (plain forms), only the data block is kept alive. "
+        "Units *.reused_ec drop the assumption that the caller's error_code is clean and FAIL on the pinned tree (see report).",
+    "trusted_base": [
+        "specs/C07/cv.h slist_*: boost::intrusive::slist<queue_entry, cache_last, constant_time_size> as a sequence stub (front/last/begin/"
+        "pop_front/push_back/erase(iterator)/swap/splice(end(), other)/size/empty/range-for; iterator == node pointer; erase(it) on a list that "
+        "does not link `it` is an obligation failure because boost walks the list from its root)",
+        "specs/C07/cv.h cv_env (ENV_WAIT): what other agents may have done to the caller's own entry while it was suspended -- dequeued by a "
+        "notifier (ctx_ cleared), untouched in queue_, or swapped into the local list of a concurrent abort_all with q_ re-targeted; justified by "
+        "the WF_V obligation at every release point of every cv.* unit.  cv_env (notifier units): queue_ arbitrary, the local list only shrinks, "
+        "the victim may have erased itself.  VX_ASSUME only in nondet_len: list lengths stay within [0, 10^9] (ghost range)",
+        "specs/C07/cv.h agent_*: execution::detail::agent_ref is an integer token (0 = default constructed); suspend / sleep_until return or throw "
+        "at the environment's discretion; resume / abort are call-trace stubs (what they do underneath is C02)",
+        "specs/C07/cv.h vx_throws_if: model of pika::detail::throws_if (throw iff &ec == &throws, else ec := code), as in specs/C06",
+        "vx/prelude/monitor.h: std::unique_lock / spinlock as a ghost 'held' bit (A-LOCK: mutual exclusion trusted)",
+        "specs/C07/pub.h dcv_wait/dcv_wait_until/dcv_notify_one/dcv_notify_all: contract of detail::condition_variable as proved by the cv.* units "
+        "(wait: lock released only inside, re-acquired, signaled|timeout, ec untouched, may throw; notify_*: by-value lock released once)",
+        "specs/C07/pub.h user_lock/user_unlock (the caller's lock: any type with lock()/unlock()), iptr_copy/iptr_release/env_destroy (intrusive_ptr "
+        "reference count of the data block; ~condition_variable() may run while the caller is blocked in a plain wait), ilock_* (std::unique_lock on "
+        "the internal lock with its owns flag kept in a ghost: CBMC's loop-contract instrumentation rejects writes to loop-local objects on loop "
+        "exits), pred_call (opaque predicate), stop_requested / stop_callback_make / stop_callback_dtor (std::stop_token semantics: monotone flag "
+        "that any thread may set at any time; a callback registered after the request runs inside the constructor; implementation = C14)",
+    ],
+    "assumptions": [
+        "units without the suffix .reused_ec: the caller passes `throws` or an error_code that holds success",
+        "predicate and stop-token forms: *this is not destroyed before the call returns (stated as the user's duty in condition_variable.hpp); "
+        "plain wait / wait_until allow it",
+        "notify_all's PIKA_ASSERT(queue.front().ctx_) is discharged from the list invariant 'every enqueued entry carries a non-null agent', which "
+        "cv.wait / cv.wait_until establish (obligation in push_back) and this_thread::agent() never being null (trusted); cv.notify_one and "
+        "cv.abort_all are also proved without it (null agents reported / skipped)",
+        "deadlines are opaque: a timed wait ends as the environment decides; 'notified before its deadline' is decided as 'a notifier cleared the entry'",
+        "exceptions are modelled only where suspension can throw (agent suspend / sleep_until, and therefore the internal waits); "
+        "pub.*.wait_until_pred is proved for the non-throwing case only (the call sits inside a condition expression)",
+    ],
+    "not_decided": [
+        "the suspend/resume machinery underneath (C02): that a resumed agent runs again, that suspend() does not return spuriously",
+        "~condition_variable of the detail class (abort_all<no_mutex> without any lock), intrusive_ptr_add_ref / intrusive_ptr_release, the "
+        "wait_for forwarders (rel_time.from_now())",
+        "arbitrary user lock types beyond the lock()/unlock() contract; the real boost::intrusive::slist",
+        "termination of abort_all's outer loop and of the predicate loops (liveness)",
+        "prepend_entries is dead code (no caller): its sequence contract is proved, but it leaves q_ of the re-added entries pointing at the "
+        "caller's local list (reach marker q_left_stale_by_prepend_entries) -- a latent WF_V violation should it ever be used",
+    ],
 }
